@@ -277,8 +277,8 @@ func (x *vc) reflectModel(fr *frame, st *state, callee *ssa.Function, args []Val
 			// quantified over the absolute position m in the backing array (a pattern with arithmetic in it is not matched reliably)
 			el := fmt.Sprintf("(select (select %s (sl_arr %s)) m)", ea, r.T)
 			x.needDecl("(declare-fun rv_keyord (Int Int) Int)")
-			x.assume(st.guard, fmt.Sprintf("(forall ((m Int)) (! (=> (and (<= (sl_off %s) m) (< m (+ (sl_off %s) (sl_len %s)))) (and %s (rv_valid %s) (= (rv_canif %s) (rv_canif %s)) (not (rv_canaddr %s)) (rv_valid (rv_mapindex %s %s)) (= (rv_keyord %s %s) m))) :pattern (%s)))",
-				r.T, r.T, r.T, rvInv(el), el, el, v, el, v, el, v, el, el))
+			x.assume(st.guard, fmt.Sprintf("(forall ((m Int)) (! (=> (and (<= (sl_off %s) m) (< m (+ (sl_off %s) (sl_len %s)))) (and %s (rv_valid %s) (= (rv_canif %s) (rv_canif %s)) (not (rv_canaddr %s)) (rv_valid (rv_mapindex %s %s)) (= (rv_canif (rv_mapindex %s %s)) (rv_canif %s)) (= (rv_keyord %s %s) m))) :pattern (%s)))",
+				r.T, r.T, r.T, rvInv(el), el, el, v, el, v, el, v, el, v, v, el, el))
 		}
 		return r, true
 	case "(reflect.Value).SetMapIndex":
